@@ -56,8 +56,12 @@ def gen_sentinel(rng, abs_sentinel):
     A = abs_sentinel.encode()
     planted = [(b'rel', b'../a'), (b'abs', A + b'/a'), (b'reldir', b'../b'), (b'absdir', A + b'/b'), (b'up', b'..'),
                (b'upup', b'../..'), (b'chain', b'rel'), (b'self', b'self'), (b'deep', b'../b/inner')]
+    # always present in the export root: links to an outside file, an outside directory, a dangling outside path
+    for nm, tg in [(b'rel', b'../a'), (b'abs', A + b'/a'), (b'reldir', b'../b'), (b'dang', b'../dangling-outside'), (b'absdang', A + b'/dangling-abs')]:
+        l = t.add('lnk', 0o777, target=tg); t.link(R, nm, l)
+    planted = planted[4:]
     rng.shuffle(planted)
-    for nm, tg in planted[:rng.randint(4, len(planted))]:
+    for nm, tg in planted[:rng.randint(2, len(planted))]:
         l = t.add('lnk', 0o777, target=tg); t.link(rng.choice([R, d]), nm, l)
     if rng.random() < 0.7: t.link(R, b'hl', g)           # a hard link inside the export
     if rng.random() < 0.5:
@@ -65,7 +69,7 @@ def gen_sentinel(rng, abs_sentinel):
     return t, S, R
 
 OUTSIDE_TARGETS = [b'../a', b'../b', b'..', b'../..', b'../b/inner', b'/', b'../lnk']
-def gen_history(rng, tree, R, abs_sentinel, n_ops):
+def gen_history(rng, tree, R, abs_sentinel, n_ops, k=0):
     A = abs_sentinel.encode()
     inside_names = [b'f', b'd', b'g', b'dd', b'hl', b'rel', b'abs', b'reldir', b'absdir', b'up', b'upup', b'chain', b'self', b'deep', b'fifo',
                     b'n1', b'n2', b'n3', b'ls1', b'ls2', b'dev']
@@ -78,6 +82,29 @@ def gen_history(rng, tree, R, abs_sentinel, n_ops):
     # a warm-up that makes the interesting inodes known
     for n in [b'd', b'f', b'rel', b'abs', b'reldir', b'up']:
         ops.append({'op': 'lookup', 'p': 0, 'name': n}); ni += 1
+    # every name-taking operation applied to a name that IS a symlink to an outside object (existing file, directory,
+    # dangling path; pre-existing or made through SYMLINK), with the open flags rotated over the histories
+    cflags = [0x2, 0x201, 0x242, 0xc2, 0x401, 0x20002, 0x42, 0x10002]
+    made = [(b'mk_out', b'../a'), (b'mk_dang', b'../made-outside'), (b'mk_dir', b'../b'), (b'mk_abs', A + b'/made-abs')]
+    for nm_, tg in made:
+        ops.append({'op': 'symlink', 'p': 0, 'name': nm_, 'target': tg, 'uid': 0, 'gid': 0}); ni += 1
+    for j, nm_ in enumerate([b'rel', b'abs', b'reldir', b'dang', b'absdang'] + [m[0] for m in made]):
+        fl = cflags[(k + j) % len(cflags)]
+        ops.append({'op': 'create', 'p': 0, 'name': nm_, 'mode': 0o666, 'umask': 0, 'flags': fl, 'fuse_flags': 0, 'uid': 0, 'gid': 0}); ni += 1; nh += 1
+        ops.append({'op': 'write', 'i': ni - 1, 'h': nh - 1, 'off': 0, 'data': b'PWNED', 'flags': fl, 'fuse_flags': 0})
+        ops.append({'op': 'mknod', 'p': 0, 'name': nm_, 'mode': 0o100644, 'rdev': 0, 'umask': 0, 'uid': 0, 'gid': 0}); ni += 1
+        ops.append({'op': 'mkdir', 'p': 0, 'name': nm_, 'mode': 0o755, 'umask': 0, 'uid': 0, 'gid': 0}); ni += 1
+        ops.append({'op': 'link', 'i': 2, 'p': 0, 'name': nm_}); ni += 1
+        ops.append({'op': 'lookup', 'p': 0, 'name': nm_}); ni += 1
+        ls = ni - 1
+        ops.append({'op': 'open', 'i': ls, 'flags': 0x801 | 0x200, 'fuse_flags': 0}); nh += 1
+        ops.append({'op': 'setattr', 'i': ls, 'h': None, 'valid': 8, 'mode': 0, 'uid': 0, 'gid': 0, 'size': 0})
+        ops.append({'op': 'setattr', 'i': ls, 'h': None, 'valid': 1 | 2 | 4, 'mode': 0o777, 'uid': 7, 'gid': 7, 'size': 0})
+        ops.append({'op': 'setxattr', 'i': ls, 'name': b'user.k', 'value': b'v', 'flags': 0})
+        ops.append({'op': 'getxattr', 'i': ls, 'name': b'user.k', 'size': 16})
+    ops.append({'op': 'create', 'p': 0, 'name': b'tmpf', 'mode': 0o644, 'umask': 0, 'flags': 0x42, 'fuse_flags': 0, 'uid': 0, 'gid': 0}); ni += 1; nh += 1
+    ops.append({'op': 'rename', 'p': 0, 'name': b'tmpf', 'p2': 0, 'name2': [b'rel', b'dang', b'reldir'][k % 3], 'flags': 0})
+    n_ops += len(ops) - 6
     while len(ops) < n_ops:
         r = rng.random()
         if r < 0.28:
@@ -245,7 +272,7 @@ def run_check(tier, seed):
             sent = os.path.join(top, 'sentinel')
             hrng = random.Random(rng.getrandbits(64))
             tree, S, R = gen_sentinel(hrng, sent)
-            ops = gen_history(hrng, tree, R, sent, 45 if quick else 80)
+            ops = gen_history(hrng, tree, R, sent, 40 if quick else 80, k)
             hist.append({'k': k, 'top': top, 'sent': sent, 'tree': tree, 'S': S, 'R': R, 'ops': ops})
         cfgs = [{'xattr': True}, {'xattr': True, 'cache': 'always', 'no_open': True}, {'xattr': True, 'inode_file_handles': True}]
         for mode in ('pt', 'vfs'):
